@@ -220,10 +220,16 @@ func HarnessCrash() {
 	// C13: creating a segment never collided with an existing file, in any epoch
 	vrt.Assert("C13.create-never-collides", collisions+fs.Collisions == 0)
 
-	// C03: the recovered WAL is usable
+	// C03: the recovered WAL is usable: it accepts an append at LastIndex+1 - at ANY index when
+	// the recovered log is empty (one symbolic index of the one-byte varint class; the codec's
+	// width forks are C12's subject)
 	next := B
 	if !m.empty() {
 		next = m.last() + 1
+	} else if !m.Unknown && vrt.Param("anyrestart", 1) == 1 {
+		next = vrt.U64("restart-index")
+		vrt.Assume(next >= 1 && next < 128)
+		vrt.Reach("restart-at-any-index")
 	}
 	l, en := mkLog(next, 0)
 	err = e.L.StoreLog(l)
